@@ -92,6 +92,7 @@ def run(F, rep, fns):
         return
     fn_items = [it for it in items if it["k"] == "fn" and it.get("body") is not None and it.get("sig")]
     n = 0
+    n_desc = 0
     fam_names = set()
     cands = []
     for it in fn_items:
@@ -154,6 +155,7 @@ def run(F, rep, fns):
                     sites.append(("descends", c, f))
             for kind, x, f in sites:
                 n += 1
+                n_desc += kind == "descends"
                 ok = guarded(f) or both(x) or (kind == "answers" and td.hit(x) and is_node(x) and x[0] == "call")
                 what = "matches the sub-patterns" if kind == "descends" else "answers `%s`" % render(x)[:50]
                 rep.check(ok, RULE, "%s:%s:%s:tag-tested-first" % (it["name"], variant, kind) if ok else "%s:%s:%s:tag-not-tested" % (it["name"], variant, kind),
@@ -161,4 +163,5 @@ def run(F, rep, fns):
                           "matches a value with a different tag (another enum variant / another state), so an earlier arm shadows the arm that really matches" % (
                               it["name"], ename, variant, what, " / ".join("%s.%s" % (binder.name, f_) for f_ in ident)),
                           "%s (mech_interpreter.lib)" % it["name"], sample={"fn": it["name"], "variant": variant, "kind": kind})
-    rep.floor(RULE, "verdicts / sub-pattern descents behind a tag test", n, 4)
+    # the mechanism, not today's copies: the payload of a tagged value is matched in (at least) two places - enum variant payload, tagged tuple elements
+    rep.floor(RULE, "sub-pattern descents of tagged patterns examined", n_desc, 2)
